@@ -56,6 +56,8 @@ func (b *base) Panicked() string { return b.panicS }
 func (b *base) serve(fn func() error) {
 	go func() {
 		defer close(b.done)
+		// gRPC cancels the stream's context when the handler returns
+		defer b.cancel()
 		defer func() {
 			if r := recover(); r != nil {
 				b.panicS = fmt.Sprintf("%v\n%s", r, debug.Stack())
